@@ -90,10 +90,67 @@ def c15(ctx):
     ctx.floors = [("guard_page_cases", 40)]
 
 
+# --------------------------------------------------------------- E1 seqmodel
+SEQ_TAGS = ["%s.%s" % (c, k) for c in ("db", "mutex_db", "olc_db") for k in ("u64", "key_view")]
+SEQ_TRANSITIONS = ["leaf_split", "prefix_split", "grow_to_I16", "grow_to_I48", "grow_to_I256", "collapse_I4",
+                   "shrink_from_I16", "shrink_from_I48", "shrink_from_I256"]
+SEQ_ASSUME = [
+    "reference: std::map over byte strings with unsigned byte order; uint64 keys are their 8-byte big-endian strings",
+    "byte-string key sets are prefix-free by construction and every step stays inside the D4-free domain (no compressed path longer than 7 bytes), decided per step by the harness's reference trie",
+    "mutex_db lock handles are released right after a get; olc_db value views are dropped at the caller's own remove/clear/quiescent state (single registered thread frees at once)",
+]
+
+
+def _seq_floors():
+    return [("T.%s.%s" % (t, tag), 1) for tag in SEQ_TAGS for t in SEQ_TRANSITIONS]
+
+
+def _seq_stage(ctx, prop, histories, extra=()):
+    args = worker_args(ctx.seed, histories, 16, ["--prop", prop] + list(extra))
+    ctx.stage("histories", "seqmodel", "dbg-asan", args, timeout=3600)
+    ctx.floors = _seq_floors()
+    ctx.assumptions = list(SEQ_ASSUME)
+
+
+@prop("C01")
+def c01(ctx):
+    n = scaled(120000 if ctx.tier == "thorough" else 6400)
+    _seq_stage(ctx, "C01", n, ["--directed"])
+    ctx.rule = ("generated histories (insert incl. duplicates, remove incl. absent keys, get, empty, clear, quiescent states for olc_db) of ~300-900 "
+                "operations over key-set families {dense, sparse, boundary, per-byte alphabets of sizes 1,2,3,4,5,16,17,48,49,256, zero-terminated "
+                "mixed-length strings, deep fixed-length strings, encoder-shaped keys}, round-robin over {db, mutex_db, olc_db} x {uint64, key_view}; "
+                "every return value compared with a byte-string map, up to 24 held value views re-read after every operation. A history is "
+                "distinct+non-trivial when its operation-sequence hash is new and it contained >= 1 structural transition and >= 1 failing (duplicate/absent) call. "
+                "Coverage floor: each of %d (class, key kind, transition) combinations observed at least once, measured from the reference trie" % len(_seq_floors()))
+
+
+@prop("C02")
+def c02(ctx):
+    n = scaled(100000 if ctx.tier == "thorough" else 5600)
+    _seq_stage(ctx, "C02", n)
+    ctx.rule = ("scan / scan_from / scan_range calls issued between the operations of C01-style histories, each compared entry by entry (key and value bytes, "
+                "order, count, no call after the visitor halted) with the slice of the reference map; bounds: stored keys, +-1 neighbours, 0/max, keys "
+                "that leave the tree at a random depth below the smallest / above the largest / in a gap of the siblings there; both directions; halting "
+                "after j visits (every j for results of <= 5 entries); byte-string scan_range repeated with the two bound buffers in both address "
+                "orders. A scan is distinct+non-trivial when (content hash, API, bounds, direction, halt position, address order) is new and the bound is not a stored key or the expected result is non-empty")
+    ctx.floors = ctx.floors + [("falloff_bounds", 1000), ("address_order_scans", 1000)]
+
+
+@prop("C10")
+def c10(ctx):
+    n = scaled(100000 if ctx.tier == "thorough" else 5600)
+    _seq_stage(ctx, "C10", n)
+    ctx.rule = ("after every operation of C01-style histories (incl. failed/duplicate operations and clear): node counts per class, leaf count, memory use, "
+                "growth/shrink counters and prefix-split counter compared with what the path-compressed radix tree of the current key set (reference trie, "
+                "smallest fitting class per node) implies; bytes held from the allocator (allocate/free hooks) compared with reported memory use; nothing "
+                "held after destruction (hooks + LeakSanitizer). A comparison is distinct+non-trivial when the key-set hash is new and the tree has >= 1 inner node")
+
+
 # ------------------------------------------------------------------ setup
 def setup_specs():
     """Every (engine, configuration) the quick tier needs; built by `check setup`."""
     return [
         ("codec", "dbg-asan", {}),
         ("codec", "rel", {}),
+        ("seqmodel", "dbg-asan", {}),
     ]
